@@ -121,7 +121,8 @@ class Ctx:
             if not cands:
                 raise Unsupported(f"function {rel}:{qualname} not found")
             # property setter/getter with the same name: pick by suffix ":setter" handled by caller via index
-            node = cands[-1] if part.endswith("!last") else cands[0]
+            real = [c for c in cands if not any(getattr(d, "id", getattr(d, "attr", None)) == "overload" for d in getattr(c, "decorator_list", []))]
+            node = (real or cands)[0]
         seg = ast.get_source_segment(text, node) or ""
         rec = {"function": f"term_image/{rel}:{qualname}", "lines": [node.lineno, node.end_lineno],
                "sha256": hashlib.sha256(seg.encode()).hexdigest()[:16]}
@@ -456,7 +457,8 @@ def main(argv=None):
         vio_lines.append(f"VIOLATION property={prop} replay={path}" + ("" if reproduced else " no-failing-input-found"))
     for v in extra_out.get("violations", []):
         vio_lines.append(v)
-    n_obl = len(results) + extra_out.get("obligations", 0)
+    # obligations that fail exactly as a listed known finding are reported separately, not as part of the proof
+    n_obl = len(results) - len(known) + extra_out.get("obligations", 0)
     n_dis = sum(1 for r in results if r["result"] == "unsat") + extra_out.get("discharged", 0)
     if errors:
         status = 3
@@ -502,6 +504,7 @@ def main(argv=None):
                 "not_decided": getattr(mod, "NOT_DECIDED", []) + [x for o in outs for x in o["not_decided"]],
                 "bounded_standins": extra_out.get("bounded", []) + [x for o in outs for x in o["bounded"]],
                 "extra": extra_out.get("report", {}),
+                "known_finding_obligations_not_discharged": [r["name"] for r, f in known],
                 "undecided": undecided[:20], "known_findings_reported": [l for l in lines if l.startswith("KNOWN")],
                 "verdict": {0: "held", 1: "violation", 2: "undecided", 3: "checker-error"}[status],
             },
